@@ -1,0 +1,80 @@
+//go:build verif
+
+package mailbox
+
+import (
+	"bytes"
+	"encoding/binary"
+	"io"
+)
+
+// This file is only compiled with the `verif` build tag. It lets a monitoring
+// harness play a responder that holds the right secret but does not follow the
+// framing rules of act two, which is the one handshake message that carries a
+// variable-length, length-prefixed payload. Nothing here changes the behaviour
+// of the package.
+
+// VerifHostileAct2 describes what is written in place of a well-formed act
+// two. The tokens of the act are produced by the real code, so that the
+// message authenticates; only the payload part is the caller's.
+type VerifHostileAct2 struct {
+	// V0Payload is the plaintext of the payload field of a version 0 act
+	// two (the real code writes ActTwoPayloadSize bytes that start with a
+	// two-byte length).
+	V0Payload []byte
+
+	// LenField is the value of the encrypted length prefix of a version
+	// 1 or 2 act two.
+	LenField uint32
+
+	// Body is the plaintext that follows that length prefix.
+	Body []byte
+}
+
+// VerifDoHandshakeHostileAct2 is DoHandshake for a responder, except that act
+// two carries the payload described by spec.
+func (b *Machine) VerifDoHandshakeHostileAct2(rw io.ReadWriter,
+	spec *VerifHostileAct2) error {
+
+	for i := 0; i < len(b.pattern.Pattern); i++ {
+		mp := b.pattern.Pattern[i]
+
+		if mp.Initiator != b.initiator {
+			if err := b.readMsgPattern(rw, mp); err != nil {
+				return err
+			}
+			continue
+		}
+
+		if mp.ActNum != act2 {
+			if err := b.writeMsgPattern(rw, mp); err != nil {
+				return err
+			}
+			continue
+		}
+
+		buff := new(bytes.Buffer)
+		buff.WriteByte(b.version)
+
+		if err := b.writeTokens(mp.Tokens, buff); err != nil {
+			return err
+		}
+
+		switch b.version {
+		case HandshakeVersion0:
+			buff.Write(b.EncryptAndHash(spec.V0Payload))
+
+		default:
+			var pktLen [4]byte
+			binary.BigEndian.PutUint32(pktLen[:], spec.LenField)
+			buff.Write(b.EncryptAndHash(pktLen[:]))
+			buff.Write(b.EncryptAndHash(spec.Body))
+		}
+
+		if _, err := rw.Write(buff.Bytes()); err != nil {
+			return err
+		}
+	}
+
+	return nil
+}
